@@ -298,6 +298,7 @@ func run(c *vh.Ctx) {
 			}
 			keyUpdateHistory(c, cb, certs, key, in)
 			keyUpdateHistoryStd(c, cb, certs, key, in)
+			brokenSendSide(c, cb, certs, key, in)
 			emptyRecords13(c, cb, certs, key, in)
 		}
 	}
